@@ -45,10 +45,28 @@ def runShareCase (id : String) (field : String → List SExp) (events : List (Li
   let rec go (w : Share.W) (muted : List Nat) (k : Nat) : List (List SExp) → List String
     | [] => []
     | ev :: r =>
-      let (ev', muted') := match ev with
-        | .atom "subfin" :: lbl :: rest => (.atom "sub" :: lbl :: rest, lbl.nat :: muted)
+      let (ev', muted') : List SExp × List Nat := match ev with
+        | .atom "subfin" :: lbl :: rest => (SExp.atom "sub" :: lbl :: rest, lbl.nat :: muted)
         | .atom "sub" :: lbl :: _ => (ev, muted.filter (· != lbl.nat))
         | _ => (ev, muted)
+      match ev' with
+      | .atom "emitj" :: _ :: n :: lk :: lj :: _ =>
+        -- `emitj 0 <notif> k j`: the emission, and from INSIDE subscriber k's callback for it subscriber j joins the shared
+        -- observable: j misses the item in flight (it waits in the subject's chamber) and is there from the next one on
+        let (w1, o1) := w.step (.emit (parseNotif n))
+        let got := match o1 with
+          | .dlv ds _ _ => ds.any (fun d => d.1 == lk.nat) && !muted'.contains lk.nat
+          | _ => false
+        if got then
+          let (w2, o2) := w1.step (.sub lj.nat)
+          let o := match o1, o2 with
+            | .dlv ds _ _, .dlv ds2 s t => Share.Out.dlv (ds ++ ds2) s t
+            | a, _ => a
+          let muted2 := muted'.filter (· != lj.nat)
+          s!"{id}.{k} {showShareOut (mute muted2 o)}" :: go w2 muted2 (k + 1) r
+        else
+          s!"{id}.{k} {showShareOut (mute muted' o1)}" :: go w1 muted' (k + 1) r
+      | _ =>
       match parseShareEv ev' with
       | some x =>
         let (w', o) := w.step x
